@@ -21,7 +21,10 @@ def _alphabet(kind, k):
         return list(base[:k])
     if kind == "wide":
         # mix of ascii and symbols >= chr(192)
-        return [WIDE[i // 2] if i % 2 else ASCII[51 - i // 2] for i in range(k)]
+        # early lower-case letters interleaved with symbols >= chr(192): the
+        # re-mapping of symbols into [a-zA-Z] for a backend einsum must not
+        # collide with letters already in use
+        return [WIDE[i // 2] if i % 2 else ASCII[i // 2] for i in range(k)]
     raise ValueError(kind)
 
 
